@@ -26,15 +26,18 @@ const (
 	evRestartA
 	evPeerI
 	evPeerA
+	evStopI
+	evStopA
 )
 
-var c05Names = []string{"step", "step(other wire first)", "send on initiator", "send on acceptor", "cut connection", "restart initiator", "restart acceptor", "silent-peer timer fires on the initiator", "silent-peer timer fires on the acceptor"}
+var c05Names = []string{"step", "step(other wire first)", "send on initiator", "send on acceptor", "cut connection", "restart initiator", "restart acceptor", "silent-peer timer fires on the initiator", "silent-peer timer fires on the acceptor", "initiator stopped (logs out) and recreated on its store", "acceptor stopped (logs out) and recreated on its store"}
 
 type c05Budget struct {
 	Sends, Faults, Swaps int
 	Timers               int    // silent-peer timer firings (either side)
 	Begin                string `json:",omitempty"` // BeginString of both engines (default FIX.4.2)
 	NextExpected         bool   `json:",omitempty"` // both engines exchange NextExpectedMsgSeqNum(789) on the Logon
+	Stops                bool   `json:",omitempty"` // graceful stop (Logout exchange) + recreation is among the faults
 }
 
 type c05Case struct {
@@ -105,6 +108,14 @@ func c05Build(file bool, scratch string, path []uint8, b c05Budget) (p *sessmc.P
 			} else {
 				faults++
 				p.Restart(e == evRestartI)
+			}
+		case evStopI, evStopA:
+			// a graceful stop while connected (with the link down it is the plain restart)
+			if !b.Stops || faults >= b.Faults || !file || !(p.I.VS.Snapshot().Connected && p.A.VS.Snapshot().Connected) {
+				ok = false
+			} else {
+				faults++
+				p.StopRestart(e == evStopI)
 			}
 		case evPeerI, evPeerA:
 			if timers >= b.Timers || !p.PeerTimer(e == evPeerI) {
@@ -205,18 +216,20 @@ func runC05(c *core.Ctx) {
 	budgets := []c05Budget{{Sends: 2, Faults: 1, Swaps: 0}, {Sends: 1, Faults: 1, Swaps: 1}, {Sends: 1, Faults: 2, Swaps: 0}, {Sends: 1, Faults: 1, Swaps: 0, Timers: 1}, {Sends: 1, Faults: 1, Swaps: 0, Begin: "FIX.4.1"}}
 	// both engines configured with EnableNextExpectedMsgSeqNum=Y (the Logon carries tag 789 and the recovery is implied)
 	budgets = append(budgets, c05Budget{Sends: 1, Faults: 1, Swaps: 0, Begin: "FIX.4.4", NextExpected: true})
+	// graceful stops (the engine logs out, is discarded and recreated on its store) among the faults
+	budgets = append(budgets, c05Budget{Sends: 1, Faults: 1, Swaps: 0, Stops: true})
 	maxDepth := 60
 	if quick {
 		c.SetDeadline(5 * time.Minute)
 	} else {
 		budgets = []c05Budget{{Sends: 2, Faults: 2, Swaps: 1}, {Sends: 3, Faults: 2, Swaps: 1}, {Sends: 2, Faults: 3, Swaps: 2}, {Sends: 2, Faults: 2, Swaps: 1, Timers: 2},
 			{Sends: 2, Faults: 2, Swaps: 1, Begin: "FIX.4.1"}, {Sends: 2, Faults: 2, Swaps: 1, Begin: "FIX.4.0"}, {Sends: 2, Faults: 2, Swaps: 1, Begin: "FIX.4.4"},
-			{Sends: 2, Faults: 2, Swaps: 1, Begin: "FIX.4.4", NextExpected: true}}
+			{Sends: 2, Faults: 2, Swaps: 1, Begin: "FIX.4.4", NextExpected: true}, {Sends: 2, Faults: 2, Swaps: 0, Stops: true}}
 		maxDepth = 90
 		c.SetDeadline(55 * time.Minute)
 	}
 	budget := budgets[0]
-	c.SetRule(fmt.Sprintf("BFS over the deviation events {application send on either side (also while disconnected), connection cut (loses all in-flight bytes in both directions), engine restart on the file store, delivering the other wire first, the silent-peer timer firing on either side (TestRequest racing the recovery)} interleaved at every step of the default schedule of two real sessions (initiator + acceptor) joined by two FIFO wires through the real stream parser; budget profiles (sends per side / faults / ordering deviations / timer firings) quick 2/1/0/0, 1/1/1/0, 1/2/0/0, 1/1/0/1, FIX.4.1 1/1/0/0 and (EnableNextExpectedMsgSeqNum=Y, FIX.4.4) 1/1/0/0, thorough 2/2/1/0, 3/2/1/0, 2/3/2/0, 2/2/1/2 and FIX.4.0/4.1/4.4 2/2/1/0 (first: %d/%d/%d); states de-duplicated by the canonical key of both sessions + wires + deliveries; safety in every state, convergence probe (reconnect, quiesce, up to 3 heartbeat rounds) from every state", budget.Sends, budget.Faults, budget.Swaps))
+	c.SetRule(fmt.Sprintf("BFS over the deviation events {application send on either side (also while disconnected), connection cut (loses all in-flight bytes in both directions), engine restart on the file store (after a cut, or after a graceful stop with its Logout exchange), delivering the other wire first, the silent-peer timer firing on either side (TestRequest racing the recovery)} interleaved at every step of the default schedule of two real sessions (initiator + acceptor) joined by two FIFO wires through the real stream parser; budget profiles (sends per side / faults / ordering deviations / timer firings) quick 2/1/0/0, 1/1/1/0, 1/2/0/0, 1/1/0/1, FIX.4.1 1/1/0/0 (EnableNextExpectedMsgSeqNum=Y, FIX.4.4) 1/1/0/0 and (with graceful stops) 1/1/0/0, thorough 2/2/1/0, 3/2/1/0, 2/3/2/0, 2/2/1/2 and FIX.4.0/4.1/4.4 2/2/1/0 (first: %d/%d/%d); states de-duplicated by the canonical key of both sessions + wires + deliveries; safety in every state, convergence probe (reconnect, quiesce, up to 3 heartbeat rounds) from every state", budget.Sends, budget.Faults, budget.Swaps))
 	c.Assume("sequence resets disabled; FIX.4.2; heartbeat timers are fired by the probe, not by wall-clock", "a connection cut loses in-flight bytes of both directions at the same instant (combined with ordering deviations for asymmetric loss)",
 		"restarts only with the file store; the memory-store run explores cuts only",
 		"one profile runs both engines with EnableNextExpectedMsgSeqNum=Y (FIX.4.4): outside the statement's default configuration, explored because the option replaces the recovery protocol; not replayed on the real pair")
@@ -255,7 +268,7 @@ func runC05(c *core.Ctx) {
 								capped = true // time budget, or the state table has reached its memory budget
 								break
 							}
-							for e := uint8(0); e <= evPeerA; e++ {
+							for e := uint8(0); e <= evStopA; e++ {
 								path := append(append([]uint8{}, frontier[i].path...), e)
 								p, ok, err := c05Build(file, scratch, path, budget)
 								if err != nil {
@@ -275,18 +288,24 @@ func runC05(c *core.Ctx) {
 								h := fnv.New64a()
 								h.Write([]byte(p.Key()))
 								// budgets used are part of the state
-								cnt := [9]int{}
+								cnt := [11]int{}
 								for _, x := range path {
 									cnt[x]++
 								}
-								fmt.Fprintf(h, "|%d,%d,%d,%d,%d", cnt[evSendI], cnt[evSendA], cnt[evCut]+cnt[evRestartI]+cnt[evRestartA], cnt[evSwap], cnt[evPeerI]+cnt[evPeerA])
+								fmt.Fprintf(h, "|%d,%d,%d,%d,%d", cnt[evSendI], cnt[evSendA], cnt[evCut]+cnt[evRestartI]+cnt[evRestartA]+cnt[evStopI]+cnt[evStopA], cnt[evSwap], cnt[evPeerI]+cnt[evPeerA])
 								if _, dup := seen.LoadOrStore(h.Sum64(), true); dup {
 									p.Close()
 									continue
 								}
 								atomic.AddInt64(&states, 1)
 								local = append(local, node{path})
-								if budget.Timers == 0 && !budget.NextExpected && (!quick || bi == 0 || bi == 1 || bi == 4) {
+								hasStop := false
+								for _, ev := range path {
+									if ev == evStopI || ev == evStopA {
+										hasStop = true // (a graceful Stop() of a logged-on engine leaves its LogoutTimeout goroutine behind: not replayed in a bubble)
+									}
+								}
+								if budget.Timers == 0 && !budget.NextExpected && !hasStop && (!quick || bi == 0 || bi == 1 || bi == 4) {
 									// one representative path per model state goes to the real engines
 									e2eMuLocal.Lock()
 									e2eItems = append(e2eItems, e2eItem{File: file, Path: path, Budget: budget})
@@ -329,7 +348,7 @@ func runC05(c *core.Ctx) {
 			if file {
 				store = "file"
 			}
-			c.Set(fmt.Sprintf("depth_completed_%s_%d_%d_%d_t%d%s%s", store, budget.Sends, budget.Faults, budget.Swaps, budget.Timers, budget.Begin, map[bool]string{true: "_789"}[budget.NextExpected]), depthDone)
+			c.Set(fmt.Sprintf("depth_completed_%s_%d_%d_%d_t%d%s%s", store, budget.Sends, budget.Faults, budget.Swaps, budget.Timers, budget.Begin, map[bool]string{true: "_789"}[budget.NextExpected]+map[bool]string{true: "_stops"}[budget.Stops]), depthDone)
 			c.AddCounter("convergence_probes", probes)
 			if capped {
 				c.Cap(fmt.Sprintf("%s store: search stopped at depth %d", store, depthDone))
